@@ -51,18 +51,23 @@ def generate(tier, seed):
         return out
 
     pairs = list(itertools.product(names, names))
-    if tier == "quick":
-        pairs = rnd.sample(pairs, 40)
+    if tier != "quick":
+        pairs = pairs * 6
     for old, new in pairs:
         do, dn = K[old], K[new]
         # the new model must not call role definitions it does not define while the old one registered them
         # (registered functions are never unregistered: c18_set_model_needs_no_leftover) - keep only safe pairs
-        if not set(do["g"].items()) <= set(dn["g"].items()):
+        # (a definition that keeps its NAME but changes its arity, e.g. g = _, _ -> g = _, _, _, is fine: the new matcher calls the new arity)
+        if not set(do["g"].keys()) <= set(dn["g"].keys()):
             continue
         steps = ["SM:" + spec_of(dn), "FRESH"] + qblock(dn)
-        cases.append(case("eng", spec_of(do), adapter_F(lines_for(dn) + lines_for(do)), "-", steps))
+        same_shape = do["g"] == dn["g"] or set(do["g"].items()) <= set(dn["g"].items())
+        # when a definition changes its arity (or the p shape differs) the file holds rules of the NEW shape only:
+        # rules of the old shape would be malformed under the new model
+        content = lines_for(dn) + (lines_for(do) if same_shape else [])
+        cases.append(case("eng", spec_of(do), adapter_F(content), "-", steps))
         dist["pairs"] += 1
-    n_seq = 80 if tier == "quick" else 1500
+    n_seq = 250 if tier == "quick" else 3000
     for _ in range(n_seq):
         name = rnd.choice(names)
         d = K[name]
@@ -99,7 +104,7 @@ def generate(tier, seed):
     return {
         "cases": cases,
         "exhaustive": False,
-        "rule": ("(old, new) pairs of model kinds whose role definitions only grow (registered role functions are never unregistered) over file adapters holding "
+        "rule": ("every (old, new) pair of model kinds whose role-definition NAMES only grow (registered role functions are never unregistered; a definition may change its arity) over file adapters holding "
                  "rules of both; sequences of 1-3 reconfiguration calls (set_model, set_adapter, set_role_manager, set_effector, add_function incl. overriding a "
                  "built-in) interleaved with management calls persisted by save_policy; then 8 requests, both stores, the filtered mark and all role queries asked "
                  "of the reconfigured enforcer and of a twin freshly built from the same model text, a copy of the policy file and the same components. "
